@@ -113,4 +113,37 @@ theorem auth_fields_src : auth_fields =
 theorem file_cache_fields_src : file_cache_fields =
     "SyncTime,Profiles,Devices,Version" := by decide
 
+/-- `fetchProfiles` starts from the database's synchronisation point … -/
+theorem fetch_sync_time_init_src : fetch_sync_time_init =
+    "db.syncTime" := by decide
+
+/-- … replaces it by the zero time for a full synchronisation (`reqTime`) … -/
+theorem fetch_sync_time_src : fetch_sync_time =
+    "time.Time{}" := by decide
+
+/-- … and sends it to the storage. -/
+theorem fetch_request_src : fetch_request =
+    "ctx, &StorageProfilesRequest{ SyncTime: syncTime, }" := by decide
+
+/-- the zero time is used exactly on a full synchronisation; an error leaves `db.syncTime` alone. -/
+theorem fetch_conds_src : fetch_conds =
+    "isFullSync | err == nil | isFullSync | errors.Is(err, context.DeadlineExceeded)" := by decide
+
+/-- `Refresh` takes the response's sync time as the new synchronisation point (`applySync`). -/
+theorem refresh_sync_time_src : refresh_sync_time =
+    "resp.SyncTime" := by decide
+
+set_option maxRecDepth 8000 in
+/-- the cache file receives the response of the full synchronisation and its sync time. -/
+theorem refresh_store_src : refresh_store =
+    "ctx, &internal.FileCache{ SyncTime: resp.SyncTime, Profiles: profiles, Devices: devices, Version: internal.FileCacheVersion, }" := by decide
+
+/-- `Refresh`: fetch, then apply, then store (a failed fetch returns before the other two). -/
+theorem refresh_order_src : refresh_order =
+    "fetchProfiles,setProfiles,Store" := by decide
+
+/-- `loadFileCache` takes the cache's sync time as the synchronisation point (`loadCache`). -/
+theorem load_cache_sync_time_src : load_cache_sync_time =
+    "c.SyncTime, c.SyncTime" := by decide
+
 end Agd.Tie.C14
